@@ -19,6 +19,10 @@ CLAIMED = {
             "the control flow of is_w3c_curie (bracket test, strip test, partition) is hand-modelled and tied by the exhaustive correspondence block; semantics of Python's re engine is modelled for the subset {literals, classes, \\s, *, ?, |, groups, ^ and $ at the ends, match/fullmatch}"),
     "C19": ("6 C19", "C19_records (the dictionary-of-sets loop equals the naive specification), C19_set_fun (function of the set of URIs), C19_valid (always a strict converter, via injectivity of decimal numbering), C19_shape_*, C19_cutoff, C19_roundtrip (no cutoff: every learnable URI compresses and expands back), C19_known_skip; for all URI lists, delimiter lists, cutoffs, metaprefixes and alnum tables. Known finding K1 (GitHub issue URIs are skipped on purpose) is excluded in the theorem and shown by C19_github_refuted; the run-time predicate evaluates the property as written, so K1 cases print KNOWN-FINDING.",
             "round trip required only for metaprefixes without ':'; delimiter lists without the empty string; str.isalnum enters as a per-case table computed by the running Python"),
+    "C04": ("6 C04", "C04_iff (Converter(records) succeeds iff no string is claimed by two records at different positions), C04_uri_first (DuplicateURIPrefixes before DuplicatePrefixes, non-empty listings), C04_listing, C04_record, C04_unique_owner, C04_bimap / C04_bimap_inverse (mutually inverse bijections), C04_loaders / C04_outcome; for all finite record collections in all orders. The run-time predicate compares outcome, exception class and the clash listing for the constructor and every loader.",
+            "loaders are modelled over abstract data (ordered dict items, 3-constructor JSON-LD terms); file reading is runtime"),
+    "C05": ("6 C05", "invariant proof: swf (indexes = owner maps of the converter's own pairwise-disjoint records) holds initially (C05_init), is preserved by every accepted add_record / add_prefix (C05_step, via swf_append and swf_merge), hence in every reachable state of every history (C05_reachable); a consistent converter answers every query as a freshly constructed one and as the naive specification (C05_fresh_equiv); rejections raise ValueError only (C05_reject); C05_cases / C05_accept / C05_resolves describe exactly what an accepted call does; for all casefold tables.",
+            "mutation is modelled at value level (a rejected call returns no new state); that a rejected call leaves the real object untouched is checked by the correspondence (state re-observed after every step)"),
 }
 NOT_YET = {}
 
